@@ -17,9 +17,9 @@ import (
 
 // diffCase is the replayable unit of a differential check.
 type diffCase struct {
-	Text      string    `json:"text"`  // printed program (what the library compiles)
-	Input     string    `json:"input"` // JSON text of the input document ("" = no input)
-	Prog      *ast.Node `json:"prog"`  // normalised generator AST (what the reference evaluates)
+	Text      string    `json:"text"`                // printed program (what the library compiles)
+	Input     string    `json:"input"`               // JSON text of the input document ("" = no input)
+	Prog      *ast.Node `json:"prog"`                // normalised generator AST (what the reference evaluates)
 	Unordered bool      `json:"unordered,omitempty"` // compare arrays as multisets (Go map order exposed)
 	Note      string    `json:"note,omitempty"`
 }
